@@ -105,6 +105,28 @@ def variants(inst, rng, sc):
                [ff["arg"]["n"] for _, n, _, _ in paths(qb) if "count" in n for ff in n["count"]["filters"] if ff["arg"]["k"] == "var"]
         if removed["arg"]["k"] == "var" and removed["arg"]["n"] not in used: argsb.pop(removed["arg"]["n"], None)
         yield "partition", [mk(qb, argsb, "no_filter"), inst, mk(qn, args0, "negated_filter")]
+    # 6b. the same partition for a filter whose argument is a TAG taken from the same (existing) vertex - the tagged VALUE may well be null:
+    #     every operator that has a negation, with every pair of properties whose types fit it
+    cands = [(p, n) for p, n, uf, uo in scopes if not uf and not uo]
+    if cands:
+        p, _ = rng.choice(cands); ty = scope_type(sc, q0, p)
+        props = [(a, T(b)) for a, b in sc.props(ty).items() if a != "__typename"]
+        choices = []
+        for a, ta in props:
+            for b, tb in props:
+                if ta["base"] != tb["base"]: continue
+                da, db = len(ta["mods"]), len(tb["mods"])
+                if da == db:
+                    choices.append((a, b, "="))
+                    if da == 1 and ta["base"] == "String": choices += [(a, b, o) for o in ("has_prefix", "has_suffix", "has_substring", "regex")]
+                if db == da + 1: choices.append((a, b, "one_of"))
+                if da == db + 1: choices.append((a, b, "contains"))
+        if choices:
+            a, b, op = rng.choice(choices)
+            q = copy.deepcopy(q0); n = at(q, p)
+            n["props"].append(prop_node(b, tags=["zq"])); n["props"].append(prop_node(a, filters=[FTag(op, "zq")]))
+            qn = copy.deepcopy(q); at(qn, p)["props"][-1]["filters"][0]["op"] = NEG[op]
+            yield "partition", [inst, mk(q, args0, "tag_filter"), mk(qn, args0, "negated_tag_filter")]
     # 7. renaming outputs and tags
     q = copy.deepcopy(q0); ren = []
     def rename(n, prefix):
